@@ -273,7 +273,21 @@ def _isinstance_split(root: pathlib.Path):
     for f in (root/'src'/'typelib').rglob('*.py'):
         t=Tr().visit(ast.parse(f.read_text())); ast.fix_missing_locations(t); f.write_text(ast.unparse(t)+'\n')
 
+def _rename_private_helpers(root):
+    """Rename every private helper the rules know by name (model.ROLE_ANCHORS), definition and all references."""
+    import re as _re
+
+    names = sorted({q.rpartition(".")[2] for q in model.ROLE_ANCHORS})
+    pat = _re.compile(r"\b(" + "|".join(_re.escape(n) for n in names) + r")\b")
+    for f in (root / "src" / "typelib").rglob("*.py"):
+        t0 = f.read_text()
+        t1 = pat.sub(lambda m: m.group(1) + "_renamed", t0)
+        if t1 != t0:
+            f.write_text(t1)
+
+
 GLOBAL_TRANSFORMS = {
+    "rename-private-helpers": _rename_private_helpers,
     "unparse-every-module": _unparse_all,
     "alpha-rename-every-local": _rename_locals,
     "suppress-to-try-except": _suppress_to_try,
